@@ -57,6 +57,20 @@ DispOK(e) ==
   THEN e.cls = "err" /\ e.msg = "fmt" /\ e.stdcls = "err"      \* a Display that reports an error yields Err(Fmt), no string
   ELSE e.cls = "ok" /\ e.text = PiecesText(e.pieces) /\ e.stdcls = "ok" /\ e.stdtext = e.text
 
+\* ----- scale records (C08, C11, C12, C01 at sizes far beyond the exhaustive scenarios; all numbers < 2^31)
+\* a growth event of an append / insert / reserve: old length, bytes needed in addition, new capacity
+GrowOK(e) == LET lo == e.len + (e.len \div 2)  need == e.len + e.add IN
+             e.cap2 >= lo /\ e.cap2 <= Max(lo, need) /\ e.cap2 >= need
+\* a whole push loop: number of growth events is logarithmic: each multiplies the capacity by >= 1.5 (floor)
+RECURSIVE Log15(_, _)
+Log15(c, n) == IF c >= n THEN 0 ELSE 1 + Log15(Max(c + 1, c + (c \div 2)), n)
+LoopOK(e) == e.events <= Log15(Max(e.cap0, 16), e.final) + 2 /\ e.teq /\ e.lenok
+\* cloning at any length: no allocator request, same bytes, equal text, either side survives the other's drop
+BigCloneOK(e) == e.dA = 0 /\ e.dR = 0 /\ e.eq /\ (e.len > 16 => e.sameptr) /\ e.survives /\ e.rcok
+\* one public call on a large string, compared with String by the harness
+BigOpOK(e) == e.teq /\ e.len2 = e.explen /\ e.cap2 >= e.len2 /\ e.resok
+NoMoveOK(e) == e.fits => (e.dA + e.dR = 0 /\ e.sameptr)
+
 Bad(e) ==
   CASE e.k = "int"   -> {n \in {"IntText", "IntStorage", "IntStd"} :
                            CASE n = "IntText" -> e.text # DecText(e.neg, e.limbs)
@@ -70,6 +84,10 @@ Bad(e) ==
     [] e.k = "float" -> {n \in {"FloatOK", "FloatStorage"} : IF n = "FloatOK" THEN ~FloatOK(e) ELSE ~NumStorage(e)}
     [] e.k = "ser"   -> {n \in {"SerOK"} : ~(e.calls = <<[m |-> "str", v |-> e.text]>> /\ e.stdcalls = e.calls)}
     [] e.k = "arb"   -> {n \in {"ArbOK"} : ~(e.same /\ (e.ok => e.text = e.ref))}
+    [] e.k = "grow"  -> {n \in {"GrowOK"} : ~GrowOK(e)}
+    [] e.k = "loop"  -> {n \in {"LoopOK"} : ~LoopOK(e)}
+    [] e.k = "bigclone" -> {n \in {"BigCloneOK"} : ~BigCloneOK(e)}
+    [] e.k = "bigop" -> {n \in {"BigOpOK", "NoMoveOK"} : IF n = "BigOpOK" THEN ~BigOpOK(e) ELSE ~NoMoveOK(e)}
     [] OTHER -> {}
 \* the oracle itself: std must agree with the specification (else the specification is wrong)
 SpecBad(e) ==
